@@ -191,7 +191,7 @@ theorem setId_wf {s : State} (h : WF s) (i : Nat) (sl : Slot) (v : Option PyVal)
 theorem setNa_wf {s : State} (h : WF s) (v : PyVal) : WF { s with na := v } :=
   ⟨h.stat, h.icls_lt, h.frozen⟩
 
-theorem newInst_wf {s : State} (h : WF s) (c : Nat) (hc : c < s.ncls) : WF (newInst s c) := by
+theorem newInst_wf {s : State} (h : WF s) (c : Nat) (a : Bool) (hc : c < s.ncls) : WF (newInst s c a) := by
   refine ⟨h.stat, ?_, h.frozen⟩
   intro i hi
   show (if i = s.ninst then c else s.icls i) < s.ncls
@@ -457,23 +457,23 @@ theorem step_wf {s : State} (h : WF s) (op : Op) : WF (step s op).1 := by
     split
     · rename_i hp; exact newClass_wf h _ (userInfo_ok p hp d)
     · exact h
-  | ni c =>
-    show WF (stepG implSem s (.ni c)).1
+  | ni c a =>
+    show WF (stepG implSem s (.ni c a)).1
     simp only [stepG]
     split
     · exact h
     · rename_i hc
       split
       · exact h
-      · exact newInst_wf h c (by simpa using hc)
+      · exact newInst_wf h c a (by simpa using hc)
   | set k t v => exact exc_fst_wf h _ (fun s' hs => (setG_eff k t v hs).wf h)
   | del k t => exact exc_fst_wf h _ (fun s' hs => (delG_eff k t hs).wf h)
   | get k t =>
     show WF (stepG implSem s (.get k t)).1
     simp only [stepG]
     split <;> exact h
-  | rend i ov =>
-    show WF (stepG implSem s (.rend i ov)).1
+  | rend i ov e =>
+    show WF (stepG implSem s (.rend i ov e)).1
     simp only [stepG]
     split <;> exact h
   | dump => exact h
@@ -495,6 +495,7 @@ structure R (s a : State) : Prop where
   ninst : a.ninst = s.ninst
   icls : a.icls = s.icls
   idict : a.idict = s.idict
+  ianim : a.ianim = s.ianim
   na : a.na = s.na
   cd : ∀ c, c < s.ncls → ∀ sl, s.cd c sl = match (s.info c).body sl with
     | some d => some ((a.cd c sl).getD d)
@@ -570,7 +571,7 @@ theorem R_setCd {s a : State} (r : R s a) (c : Nat) (sl : Slot) (v w : Option Py
     (hvw : v = match (s.info c).body sl with
       | some d => some (w.getD d)
       | none => w) : R (s.setCd c sl v) (a.setCd c sl w) := by
-  refine ⟨r.dft, r.ncls, r.info, r.ninst, r.icls, r.idict, r.na, ?_⟩
+  refine ⟨r.dft, r.ncls, r.info, r.ninst, r.icls, r.idict, r.ianim, r.na, ?_⟩
   intro k hk t
   show (if k = c ∧ t = sl then v else s.cd k t) = match (s.info k).body t with
     | some d => some ((if k = c ∧ t = sl then w else a.cd k t).getD d)
@@ -590,7 +591,7 @@ theorem R_store {s a : State} (r : R s a) (c : Nat) (sl : Slot) (v : PyVal) :
 
 theorem R_setId {s a : State} (r : R s a) (i : Nat) (sl : Slot) (v : Option PyVal) :
     R (s.setId i sl v) (a.setId i sl v) := by
-  refine ⟨r.dft, r.ncls, r.info, r.ninst, r.icls, ?_, r.na, r.cd⟩
+  refine ⟨r.dft, r.ncls, r.info, r.ninst, r.icls, ?_, r.ianim, r.na, r.cd⟩
   show (fun k t => if k = i ∧ t = sl then v else a.idict k t) = (fun k t => if k = i ∧ t = sl then v else s.idict k t)
   rw [r.idict]
 
@@ -601,20 +602,22 @@ theorem R_storeT {s a : State} (r : R s a) (t : Target) (sl : Slot) (v : PyVal) 
   | inst i => exact R_setId r i sl _
 
 theorem R_na {s a : State} (r : R s a) (v : PyVal) : R { s with na := v } { a with na := v } :=
-  ⟨r.dft, r.ncls, r.info, r.ninst, r.icls, r.idict, rfl, r.cd⟩
+  ⟨r.dft, r.ncls, r.info, r.ninst, r.icls, r.idict, r.ianim, rfl, r.cd⟩
 
-theorem R_newInst {s a : State} (r : R s a) (c : Nat) : R (newInst s c) (newInst a c) := by
-  refine ⟨r.dft, r.ncls, r.info, ?_, ?_, ?_, r.na, r.cd⟩
+theorem R_newInst {s a : State} (r : R s a) (c : Nat) (an : Bool) : R (newInst s c an) (newInst a c an) := by
+  refine ⟨r.dft, r.ncls, r.info, ?_, ?_, ?_, ?_, r.na, r.cd⟩
   · show a.ninst + 1 = s.ninst + 1
     rw [r.ninst]
   · show (fun k => if k = a.ninst then c else a.icls k) = (fun k => if k = s.ninst then c else s.icls k)
     rw [r.ninst, r.icls]
   · show (fun k t => if k = a.ninst then none else a.idict k t) = (fun k t => if k = s.ninst then none else s.idict k t)
     rw [r.ninst, r.idict]
+  · show (fun k => if k = a.ninst then an else a.ianim k) = (fun k => if k = s.ninst then an else s.ianim k)
+    rw [r.ninst, r.ianim]
 
 theorem R_newClass {s a : State} (r : R s a) (inf : Info) :
     R (newClass implSem s inf) (newClass specSem a inf) := by
-  refine ⟨r.dft, ?_, ?_, r.ninst, r.icls, r.idict, r.na, ?_⟩
+  refine ⟨r.dft, ?_, ?_, r.ninst, r.icls, r.idict, r.ianim, r.na, ?_⟩
   · show a.ncls + 1 = s.ncls + 1
     rw [r.ncls]
   · show (fun k => if k = a.ncls then inf else a.info k) = (fun k => if k = s.ncls then inf else s.info k)
@@ -788,6 +791,14 @@ theorem effMethod_eq {s a : State} (h : WF s) (r : R s a) (i : Nat) (ov : PyVal)
     rw [this]
   · simp [hi]
 
+theorem usedG_eq {s a : State} (h : WF s) (r : R s a) (i : Nat) (ov : PyVal) (e : Entry) :
+    usedG implSem s i ov e = usedG specSem a i ov e := by
+  have hok : entryArgOk a i e ov = entryArgOk s i e ov := by
+    unfold entryArgOk
+    rw [r.icls, r.methods]
+  unfold usedG
+  rw [hok, r.ninst, r.icls, r.ianim, r.info, r.dft, effMethod_eq h r i ov]
+
 theorem dumpG_eq {s a : State} (h : WF s) (r : R s a) : dumpG implSem s = dumpG specSem a := by
   unfold dumpG
   rw [r.ncls, r.ninst]
@@ -833,15 +844,15 @@ theorem step_refines {s a : State} (h : WF s) (r : R s a) (op : Op) :
     split
     · exact ⟨R_newClass r _, rfl⟩
     · exact ⟨r, rfl⟩
-  | ni c =>
-    show R (stepG implSem s (.ni c)).1 (stepG specSem a (.ni c)).1 ∧ _ = (stepG specSem a (.ni c)).2
+  | ni c an =>
+    show R (stepG implSem s (.ni c an)).1 (stepG specSem a (.ni c an)).1 ∧ _ = (stepG specSem a (.ni c an)).2
     simp only [stepG]
     rw [r.ncls, r.info, r.ninst]
     split
     · exact ⟨r, rfl⟩
     · split
       · exact ⟨r, rfl⟩
-      · exact ⟨R_newInst r c, rfl⟩
+      · exact ⟨R_newInst r c an, rfl⟩
   | set k t v => exact exc_rel r _ _ (setG_rel h r k t v)
   | del k t => exact exc_rel r _ _ (delG_rel h r k t)
   | get k t =>
@@ -849,10 +860,10 @@ theorem step_refines {s a : State} (h : WF s) (r : R s a) (op : Op) :
     simp only [stepG]
     rw [getG_eq h r k t]
     split <;> exact ⟨r, rfl⟩
-  | rend i ov =>
-    show R (stepG implSem s (.rend i ov)).1 (stepG specSem a (.rend i ov)).1 ∧ _ = (stepG specSem a (.rend i ov)).2
+  | rend i ov e =>
+    show R (stepG implSem s (.rend i ov e)).1 (stepG specSem a (.rend i ov e)).1 ∧ _ = (stepG specSem a (.rend i ov e)).2
     simp only [stepG]
-    rw [effMethod_eq h r i ov]
+    rw [usedG_eq h r i ov e]
     split <;> exact ⟨r, rfl⟩
   | dump =>
     show R (stepG implSem s .dump).1 (stepG specSem a .dump).1 ∧ _ = (stepG specSem a .dump).2
@@ -948,7 +959,7 @@ theorem empty_wf (d : Defaults) : WF (State.empty d) := by
   refine ⟨⟨?_, ?_, ?_, ?_, ?_, ?_⟩, ?_, ?_⟩ <;> intro c hc <;> exact absurd hc (Nat.not_lt_zero _)
 
 theorem empty_R (d : Defaults) : R (State.empty d) (State.empty d) := by
-  refine ⟨rfl, rfl, rfl, rfl, rfl, rfl, rfl, ?_⟩
+  refine ⟨rfl, rfl, rfl, rfl, rfl, rfl, rfl, rfl, ?_⟩
   intro c hc
   exact absurd hc (Nat.not_lt_zero _)
 
